@@ -25,7 +25,7 @@ from vlib import runner as R
 from vlib import spec as S
 from vlib.prog import Program
 
-from ovld.types import normalize_type
+from vlib.api import normalize_type
 
 HIER = {"classes": [{"bases": []}, {"bases": [0]}]}
 KN = ["K0", "K1"]
@@ -243,7 +243,10 @@ def run_case(spec):
             res.label("path:" + pth)
         res.label("target:" + tspec[0], f"siblings:{len(spec['siblings'])}")
         multival = tspec[0] != "lit" or len(tspec[1]) > 1
-        res.nontrivial = bool(paths & {"table", "counting"}) and (multival or multi)
+        # several value-dependent methods compete at the position (the dispatcher has to choose: table or counting
+        # path - the observed path is only a label, it depends on identifiers of the generated code)
+        competing = 1 + len(spec["siblings"]) + len(spec["others"]) >= 2
+        res.nontrivial = (bool(paths & {"table", "counting"}) or (not paths and competing)) and (multival or multi)
         res.key = R.h64([sorted(paths), tspec, len(spec["siblings"]), len(spec["others"]), spec["static"],
                          bool(spec["second"]), spec["siblings"]])
         if srcs and res.nontrivial:
@@ -272,8 +275,9 @@ class Check:
         "disjoint or overlapping, further value types, a static sibling, optionally a second dependent position or "
         "keyword-only placement, three host kinds) x every corpus value. isinstance(v, T) is compared with the "
         "hand-written documented meaning and dispatch is compared with isinstance. Non-trivial = the generated "
-        "dispatcher took the table or counting path AND the target is multi-valued / non-Literal or overlaps a "
-        "companion; distinct by (path set, target, companion shape)."
+        "dispatcher took the table or counting path (or, when its source is not observable, >=2 value-dependent methods "
+        "compete at the position) AND the target is multi-valued / non-Literal or overlaps a companion; distinct by "
+        "(path set, target, companion shape)."
     )
     assumptions = [
         "Literal: an equal value of a foreign type (1.0 vs Literal[1]) is unspecified and skipped",
